@@ -393,7 +393,11 @@ func (t *taskTrace) Do(options ...DoOption) {
 	}
 
 	response := newDoOption(options...)
-	t.forward <- *response
+	select {
+	case t.forward <- *response:
+	default:
+		// an answer is already on its way: later ones are ignored
+	}
 }
 
 func (t *taskTrace) process() {
